@@ -358,6 +358,8 @@ class DnsNameUncompressed(ParsableBase, Serializable):
         if isinstance(value, cls):
             return value
         if isinstance(value, six.string_types):
+            if value.endswith('.'):  # absolute notation: the root label is not one of the labels
+                value = value[:-1]
             if not value:
                 return cls([])
 
